@@ -448,7 +448,11 @@ fn check_assertion<B: FA>(c: &ACase, obs: &mut Obs) -> CheckResult {
     let con = &groups[0].constraints()[0];
     ensure!(con.column() == d.col, "constraints/column", "constraint column {} != {}", con.column(), d.col);
     let nv = if single_like || d.kind == Kind::Periodic { 1 } else { d.nvals };
-    ensure!(con.poly().len() == nv, "constraints/poly-length", "{d:?}: value polynomial has {} coefficients for {nv} values", con.poly().len());
+    // (the number of coefficients is a matter of representation: the property asks for the values on the named
+    // steps, which the loop below checks; a shorter polynomial that reproduces them is not a violation)
+    if con.poly().len() != nv {
+        obs.label("value-polynomial:length-differs-from-number-of-values");
+    }
     for (j, &s) in steps.iter().enumerate() {
         let val = value(fp, d, d.value_index(j));
         let x = B::from_u128(dom[s]);
